@@ -432,8 +432,9 @@ class EDEOption(Option):  # lgtm[py/missing-equals]
         text = parser.get_remaining()
 
         if text:
-            if text[-1] == 0:  # text MAY be null-terminated
-                text = text[:-1]
+            # text MAY be null-terminated; every trailing NUL is dropped, so that the
+            # option's own wire form decodes to an equal option
+            text = text.rstrip(b"\x00")
             btext = text.decode("utf8")
         else:
             btext = None
